@@ -44,6 +44,17 @@ def main():
     tier = args.tier if args.tier in ("quick", "thorough") else "quick"
     seed = int(os.environ.get("VERIF_SEED", "0") or 0)
     t0 = time.time()
+    # watchdog: a check that does not finish is an infrastructure failure (exit 2), never a verdict
+    import threading
+    limit = int(os.environ.get("VERIF_TIME_LIMIT", "1500" if tier == "quick" else "14400"))
+
+    def _give_up():
+        sys.stderr.write("TIMEOUT property=%s tier=%s after %d s (infrastructure, no verdict)\n" % (prop, tier, limit))
+        sys.stderr.flush()
+        os._exit(2)
+    wd = threading.Timer(limit, _give_up)
+    wd.daemon = True
+    wd.start()
     mod = importlib.import_module("props." + prop)
     ctx = Ctx(prop, tier, seed)
 
